@@ -444,7 +444,7 @@ func c06Random(rng *rand.Rand, acyclic bool) c06Scenario {
 func c06Faulty() []c06Scenario {
 	var out []c06Scenario
 	add := func(class string, mods map[string][]string, entries [][]string, faults map[string]c06Fault) *c06Scenario {
-		out = append(out, c06Scenario{Class: class, Mods: mods, Pkgs: c06PkgsFor(entries, len(out)%2 == 0), Faults: faults})
+		out = append(out, c06Scenario{Class: class, Mods: mods, Pkgs: c06PkgsFor(entries, len(out)%2 == 0), Faults: faults, Reps: 4})
 		return &out[len(out)-1]
 	}
 	cp := func(m map[string][]string) map[string][]string {
@@ -526,10 +526,14 @@ func c06RandomFaulty(rng *rand.Rand) c06Scenario {
 // semaphore, a depth or fan-out limit, a buffer) is crossed: chains and cycles n deep, n packages side by side,
 // n packages each w modules deep in private chains, a module with n load statements, a chain of n modules that all
 // load one helper.  RvMods adds a second rendezvous with every private chain at its deepest module.
-func c06Scale(sizes []int) []c06Scenario {
+func c06Scale(sizes []int, wideMax int) []c06Scenario {
 	var out []c06Scenario
 	add := func(class string, mods map[string][]string, pkgs []c06Pkg, rv []string) {
-		out = append(out, c06Scenario{Class: class, Mods: mods, Pkgs: pkgs, RvMods: rv, Reps: 3})
+		reps := 3
+		if len(pkgs) == 1 { // one goroutine: one schedule
+			reps = 1
+		}
+		out = append(out, c06Scenario{Class: class, Mods: mods, Pkgs: pkgs, RvMods: rv, Reps: reps})
 	}
 	flat := func(entries [][]string) []c06Pkg {
 		var ps []c06Pkg
@@ -558,14 +562,17 @@ func c06Scale(sizes []int) []c06Scenario {
 		}
 		add("deepcycle", cyc, flat([][]string{{nm[0]}}), nil)
 		add("deepcycle", cyc, flat([][]string{{nm[0]}, {nm[n/3]}, {nm[2*n/3]}}), nil)
-		// n packages side by side, each loading a module of its own and then one shared helper
-		wide := map[string][]string{"z": {"y"}, "y": nil}
-		var entries [][]string
-		for i := 0; i < n; i++ {
-			wide[nm[i]] = []string{"z"}
-			entries = append(entries, []string{nm[i], "z"})
+		// n packages side by side, each loading a module of its own and then one shared helper (the replay of these
+		// logs is the expensive part of the check: the quick tier stops at wideMax)
+		if n <= wideMax {
+			wide := map[string][]string{"z": {"y"}, "y": nil}
+			var entries [][]string
+			for i := 0; i < n; i++ {
+				wide[nm[i]] = []string{"z"}
+				entries = append(entries, []string{nm[i], "z"})
+			}
+			add("wide", wide, flat(entries), nil)
 		}
-		add("wide", wide, flat(entries), nil)
 		// one module with n load statements, loaded by two packages
 		fan := map[string][]string{"hub": append([]string(nil), nm...)}
 		for i := 0; i < n; i++ {
@@ -581,7 +588,9 @@ func c06Scale(sizes []int) []c06Scenario {
 				comb[nm[i]] = []string{"z"}
 			}
 		}
-		add("comb", comb, flat([][]string{{nm[0]}, {nm[n/2]}}), nil)
+		if n <= wideMax {
+			add("comb", comb, flat([][]string{{nm[0]}, {nm[n/2]}}), nil)
+		}
 		// w packages, each d deep in a private chain that ends in a shared helper: w*(d+1) modules executing at once
 		for _, w := range []int{4, 8} {
 			d := n / w
@@ -730,7 +739,7 @@ func TestVerifC06(t *testing.T) {
 	}
 	scs = append(scs, c06Faulty()...)
 	frng := rand.New(rand.NewSource(seed*104729 + 5))
-	for i := 0; i < nrand/4; i++ {
+	for i := 0; i < nrand/8; i++ {
 		scs = append(scs, c06RandomFaulty(frng))
 	}
 	var sizes []int
@@ -739,7 +748,8 @@ func TestVerifC06(t *testing.T) {
 			sizes = append(sizes, n)
 		}
 	}
-	scs = append(scs, c06Scale(sizes)...)
+	wideMax, _ := strconv.Atoi(os.Getenv("VERIF_WIDE_MAX"))
+	scs = append(scs, c06Scale(sizes, wideMax)...)
 	id := 0
 	hangs := 0
 	for i := range scs {
